@@ -5,6 +5,7 @@ mod cp;
 mod framing;
 mod timing;
 mod hitobj;
+mod events;
 
 use util::*;
 
@@ -21,6 +22,8 @@ fn main() {
         ("timing", "replay") => timing::replay(&args, &mut s),
         ("timing", "record") => timing::record(&args, &mut s),
         ("hitobj", "replay") => hitobj::replay(&args, &mut s),
+        ("events", "replay") => events::replay(&args, &mut s),
+        ("events", "record") => events::record(&args, &mut s),
         (m, o) => {
             eprintln!("unknown module/mode {m} {o}");
             std::process::exit(2);
